@@ -28,7 +28,8 @@ ASSUMPTIONS = [
     "structures and histories are sampled (seeded); only the fault catalogue is enumerated completely",
 ]
 
-OPS = ["dot_bracket", "elements", "without_pseudoknots", "without_isolated", "mapping_dot_bracket", "mapping_extended"]
+OPS = ["dot_bracket", "elements", "without_pseudoknots", "without_isolated", "mapping_dot_bracket", "mapping_extended",
+       "mapping_extract"]
 CORPUS = ["1ehz-assembly-1.cif", "4qln.cif"]
 KINDS_OF = {"sim-api": API_KINDS, "cbc-wrapper": CBC_KINDS, "highs-wrapper": HIGHS_KINDS,
             "real-cbc": REAL_KINDS, "none": ["ok"]}
@@ -131,8 +132,10 @@ def gen_run(seed, tier, i):
             fault["assign"] = s_fault.choice(API_ASSIGN)
         step = {"triples": st["triples"], "op": op, "via": via, "backend": backend,
                 "fault": fault, "default": s_cfg.choice(["none", "sim-api"])}
+        if op == "mapping_extract" and s_ops.random() < 0.6:
+            op = step["op"] = "mapping_dot_bracket"  # the full entry point is ~50x dearer: keep it rare
         if op.startswith("mapping_"):
-            step["corpus"] = s_ops.choice(CORPUS)
+            step["corpus"] = CORPUS[0] if op == "mapping_extract" else s_ops.choice(CORPUS)
             step["triples"] = []
         steps.append(step)
     # clause (e): after the last fault a fresh object with a healthy solver
